@@ -30,7 +30,7 @@ CONFIG = {
             "LIMIT x OFFSET x SLIMIT x SOFFSET sweep; cross-series timestamp ties) then seeded generation: data sets of 0..57 points, 1..5 series "
             "over 2 tag keys (tags may be absent), float/int/string/bool field plus an optional second field, 1..3 write batches with later "
             "overwrites, negative and window-aligned timestamps, half of the data sets without cross-series timestamp ties; 8 statements per data "
-            "set over the whole grammar with window-aligned / off-by-one / empty time ranges; 5 layouts per data set (7 thorough). "
+            "set over the whole grammar with window-aligned / off-by-one / empty time ranges; 6 layouts per data set (8 thorough), one of them with a cache snapshot in flight (begun, not committed) under the later batches and during the queries. "
             "distinct = distinct (data set, statement); non-trivial = data set non-empty and result has at least one row",
     "trusted_base": [
         "C11: the harness canonicaliser (models.Rows -> name/column check, tag tuple, (unix nanos, typed value); floats as exact rationals via big.Rat)",
